@@ -83,7 +83,7 @@ def _clone_to(spec, src, dst):
 def cases(draw, tier):
     provs = draw(st.sampled_from([ALL, ALL, ("machine", "l0", "late0"), ("machine", "model", "l0", "l1", "late0")]))
     late = tuple(p for p in provs if p.startswith("late"))
-    async_mode = draw(st.sampled_from(["none", "none", "all", "mixed"]))
+    async_mode = draw(st.sampled_from(["none", "none", "all", "mixed", "late-only", "late-only"]))
     spec = draw(gen.machine_spec(max_states=4, max_extra=6, providers=provs, late=late, async_mode=async_mode, sends=draw(st.sampled_from([False, False, True])),
                                  attach=("conv", "name"), guard_kinds=("method", "property")))
     in_unless = {g for t in spec["trans"] for g in t["unless"]}
